@@ -38,7 +38,7 @@ type c02Cfg struct {
 	Prev    bool     `json:"prev_configured"`
 	LongLbl bool     `json:"long_labels"`
 	MBLbl   bool     `json:"multibyte_labels,omitempty"`
-	Sep     string   `json:"menu_separator,omitempty"` // engine.Config.MenuSeparator ("" = default ':'); not with MSink
+	Sep     string   `json:"menu_separator,omitempty"`              // engine.Config.MenuSeparator ("" = default ':'); not with MSink
 	XLbl    bool     `json:"labels_expanded_by_resource,omitempty"` // the browse entries name symbols (nx, pv) that the resource expands to longer labels
 	Size    uint32   `json:"output_size"`
 	Mode    string   `json:"mode"`
